@@ -252,7 +252,9 @@ def _enum_child(idx, src, seed, focus, conn):
 
 def run_enumerators(eng, prop, a, seed, results, ctx):
     """bounded stand-ins: run when some obligation of a function in their scope failed or is undecided
-    (quick tier), or always (thorough tier: CPython cross-check of contracts and engine)."""
+    (quick tier), or always (thorough tier: CPython cross-check of contracts and engine). `always` ones decide a clause
+    that has no deductive contract; `crosscheck` ones (cheap, deterministic) also run on every change, only to catch
+    what the contracts cannot see (trusted or unmodelled code): they never count towards the level of assurance."""
     bad_fns = set()
     for r in results:
         if r.get("unsupported") or r.get("error"):
@@ -265,7 +267,7 @@ def run_enumerators(eng, prop, a, seed, results, ctx):
         if prop not in en["props"]:
             continue
         hit = sorted(bad_fns & set(en["scope"]))
-        if a.tier == "thorough" or hit or en.get("always"):
+        if a.tier == "thorough" or hit or en.get("always") or en.get("crosscheck"):
             chosen.append((i, en, hit))
     procs = []
     for i, en, hit in chosen:
